@@ -99,7 +99,7 @@ def require(lab, name, claim, law, twin=None, signature='kernel', impl=None, spe
     res = native_law(lab.n, w['T'], w['sets'], law)
     if res['violated']:
         chk.obligation(full, engine, 'violated', v.seconds)
-        chk.violation(full, signature, {'witness': {'T': {f'{i},{s}': t for (i, s), t in w['T'].items()}, 'sets': {k: sorted(x) for k, x in w['sets'].items()}}, 'law': [law[0]] + [S.show(p) for p in law[1:]], 'native': res},
+        chk.violation(full, signature, {'witness': {'T': {f'{i},{s}': t for (i, s), t in w['T'].items()}, 'sets': {k: sorted(x) for k, x in w['sets'].items()}}, 'law': [law[0]] + [S.show(p) for p in law[1:]], 'law_ast': list(law[1:]), 'native': res},
                       f"{name}: {res['what']}")
     else:
         print(f'  non-reproducing counterexample for {full}: {res}', flush=True)
